@@ -358,7 +358,8 @@ PLAN = {
     # bound 99 = no preemption bound at all: every interleaving of the lock / event / thread / write operations
     "quick": [(h, "coarse", 2) for h in HARNESSES if h != "H17"] + [("H17", "coarse", 1)]
              + [(h, "shared", 1) for h in HARNESSES if h not in ("H7x", "H16", "H17")]
-             + [(h, "coarse", 99) for h in ("H1", "H2")] + [("H16", "line", 1)],
+             + [(h, "coarse", 99) for h in ("H1", "H2")] + [("H16", "line", 1)]
+             + [("H1", "shared", 2)],     # two first writers of a fresh recording console need two preemptions
     "thorough": [(h, "coarse", 3) for h in HARNESSES if h != "H17"] + [("H17", "coarse", 2)] + [(h, "line", 1) for h in HARNESSES if h != "H17"]
                 + [(h, "shared", 2) for h in ("H1", "H2", "H9", "H4", "H11", "H13")]
                 + [(h, "coarse", 99) for h in ("H1", "H2", "H11", "H13", "H4", "H9", "H15", "H12")],
